@@ -74,6 +74,7 @@ FIRE: List[Tuple[str, str, str, List[Tuple[str, str, str]]]] = [
     ("map-key-bool-as-int", "C05", "J6", [(I, "        return key == \"true\" if isinstance(key, str) else key\n", "        return bool(key)\n")]),
     ("wrapper-json-not-decoded", "C04", "J2", [(I, "                        else _scalar_from_json(meta.wraps, value)", "                        else value")]),
     ("scalar-to-json-int64-number", "C05", "J1", [(I, "    if proto_type in INT_64_TYPES:\n        return str(value)\n", "")]),
+    ("duration-text-through-float", "C15", "Q4", [(I, "        sign = -1 if text.startswith(\"-\") else 1\n        seconds, _, fraction = text.lstrip(\"+-\").partition(\".\")\n        nanos = int(fraction[:9].ljust(9, \"0\")) if fraction else 0\n        return sign * timedelta(seconds=int(seconds or 0), microseconds=nanos / 1e3)", "        return timedelta(seconds=float(text))")]),
     ("mismatch-check-dropped", "C17", "M4", [(I, "            if not _wire_type_matches(parsed.wire_type, meta.proto_type, repeated):", "            if False:")]),
     ("packed-into-singular", "C17", "M4", [(I, "            repeated = proto_meta.default_gen[field_name] is list\n", "            repeated = True\n")]),
     ("empty-map-entry-dropped", "C01", "T4", [(I, "                            sk + sv,\n                            # An entry with default key and value is still an entry.\n                            serialize_empty=True,", "                            sk + sv,")]),
